@@ -200,7 +200,7 @@ func scenarioServer(sp Spec, oc *Outcome) {
 	var wgPeers sync.WaitGroup
 	for i, ps := range sp.Peers {
 		if ps.Kind == "raw" {
-			r := &rawPeer{spec: ps, addr: fx.addr, co: co, delay: time.Duration(rng.IntN(300)) * time.Microsecond}
+			r := &rawPeer{spec: ps, addr: fx.addr, co: co, delay: time.Duration(rng.IntN(300)) * time.Microsecond, seed: sp.Seed + uint64(i)}
 			raws = append(raws, r)
 			continue
 		}
@@ -398,6 +398,14 @@ func scenarioServer(sp Spec, oc *Outcome) {
 	// wind down the harness side, then look at the whole process
 	for _, r := range raws {
 		r.close()
+		if r.flow != "" {
+			oc.PeerFlow = append(oc.PeerFlow, r.flow)
+		}
+		for _, n := range r.notes {
+			if strings.HasSuffix(n, "was accepted") {
+				oc.Notes = append(oc.Notes, "raw: "+n)
+			}
+		}
 	}
 	wgPeers.Wait()
 	wgJoin.Wait()
